@@ -13,7 +13,9 @@ from vf.core import Suite, coq_list, coq_bool, coq_N, coq_Z
 from vf.gen import pick_weighted
 
 ID = "C12"
-THEOREMS = ["C12_roundtrip", "C12_entry_roundtrip", "C12_entry_size_git", "C12_varint", "C12_reuc_stage_order", "C12_reuc_maporder_refuted"]
+THEOREMS = ["C12_roundtrip", "C12_entry_roundtrip", "C12_entry_size_git", "C12_varint", "C12_reuc_stage_order", "C12_reuc_maporder_refuted",
+            "C12_git_reads_ours", "C12_git_fsck_reads_ours", "C12_we_read_git", "C12_we_read_git_sparse_refused",
+            "C12_we_read_git_tree", "C12_we_read_git_reuc", "C12_git_eoie_accepts_own", "C12_git_varint_agree"]
 MODEL_FILES = ["IndexFile.v"]
 MODELLED = ("plumbing/format/index: Encoder.Encode (sort, entry layout, V2/3 padding, V4 prefix compression, footer / skip-hash) and "
             "Decoder.Decode (header, readEntry, padEntry incl. long names, V4 strip-length checks, extension loop, TREE / REUC / EOIE "
@@ -609,8 +611,28 @@ def synth_cases(rng, n, big=0):
         if rng.random() < 0.3:
             spec["exts"] = [x for x in spec["exts"] if x[0] != b"EOIE"]
             spec["eoie"] = "valid"
+        gitlike = rng.random() < 0.4
+        if gitlike:       # exactly what do_write_index would write: version by the extended flags, extensions in git's order
+            ext = any(e["skip"] or e["ita"] for e in es)
+            spec["version"] = ver = (3 if ext else 2) if ver in (2, 3) else ver
+            exts = []
+            if rng.random() < 0.6:
+                exts.append((b"TREE", enc_ctree(rctree(rng, hs, 0, rng.random() < 0.5))))
+            if rng.random() < 0.5:
+                rs = {}
+                for _ in range(rng.randrange(1, 4)):
+                    modes = {s: rng.choice([0, 0o100644, 0o100755, 0o120000]) for s in (1, 2, 3)}
+                    modes[rng.choice([1, 2, 3])] = 0o100644
+                    p = rname(rng, False)
+                    rs[p] = {"path": p, "modes": modes, "hashes": {s: rhash(rng, hs) for s in (1, 2, 3)}}
+                exts.append((b"REUC", enc_reuc_ext([rs[p] for p in sorted(rs)], hs)))
+            for sig in (b"UNTR", b"FSMN"):
+                if rng.random() < 0.25:
+                    exts.append((sig, bytes(rng.randrange(256) for _ in range(rng.randrange(0, 40)))))
+            spec.update(exts=exts, eoie="valid" if rng.random() < 0.5 else None, trailer="ok")
         data = build_index(spec, hs)
-        cases.append(dec_case("synth-big" if i < big else "synth-valid", data, hs, skiphash=rng.random() < 0.2, valid=True))
+        cases.append(dec_case("synth-big" if i < big else "synth-git" if gitlike else "synth-valid", data, hs,
+                              skiphash=rng.random() < 0.2, valid=True, reencode=gitlike))
         # malformed / boundary variants of the same file
         k = pick_weighted(rng, [(3, "trunc"), (2, "flip"), (1, "badsum"), (1, "sig"), (1, "ver"), (1, "count"), (1, "mand"), (1, "strip"),
                                 (1, "trail"), (1, "eoie"), (1, "treebad"), (1, "reucbad"), (1, "nsec"), (1, "varint"), (2, "order"), (1, "xflags")])
@@ -669,7 +691,7 @@ def synth_cases(rng, n, big=0):
             elif r < 0.7:
                 rng.shuffle(es2)
             else:
-                es2 = es2 + [rentry(rng, hs, es2[-1]["name"][:-1], 0)]
+                es2 = es2 + [rentry(rng, hs, es2[-1]["name"][:-1] or b"o", 0)]      # (git prints an empty name as "./")
             m = build_index({"version": ver, "entries": es2}, hs)
             valid = True
         elif k == "xflags":  # extended-flag bits git does not understand: git dies, go-git ignores them
@@ -931,15 +953,20 @@ class Dec(Suite):
             s = self.S.get(c["id"])
             if not s or s_err(s[0]) is not None:
                 continue
-            if tree_nodes(s[0]) is not None:   # git parses the TREE extension: go-git's flat list = the valid nodes in pre-order
+            exact = isinstance(s[4], list) and unparse(s[4][0]) == obytes(data)
+            if not exact:
+                continue
+            # the file is byte for byte what git writes for the state it holds (C12_we_read_git's premise, decided by S
+            # and, for S, by the binary): go-git's cache tree = the valid nodes in pre-order, EOIE = (offset of the first
+            # extension, hash of the extension headers)
+            if tree_nodes(s[0]) is not None:
                 want_t = [[n[1], n[2], n[3], n[4]] for n in tree_nodes(s[0]) if not n[2].startswith("-")]
                 got_t = o[3][1] if o[3] != "none" else None
                 stats["tree_vs_S"] += 1
                 if got_t != want_t:
                     fails[c["id"]] = "cache tree differs from what git reads (Spec/GitIndex): go-git %s / git %s" % (unparse(o[3])[:300], unparse(want_t)[:300])
                     continue
-            if has_eoie(data, c["hs"]) and isinstance(s[4], list) and unparse(s[4][0]) == obytes(data):
-                # the file is exactly what git writes for the state it holds: EOIE = (offset of the first extension, hash of the headers)
+            if has_eoie(data, c["hs"]):
                 stats["eoie_vs_S"] += 1
                 if o[5] == "none" or o[5][1] != [s[4][1], s[4][2]]:
                     fails[c["id"]] = "EOIE differs from what git writes (Spec/GitIndex): go-git %s / git %s" % (unparse(o[5]), unparse(s[4][1:]))
@@ -977,8 +1004,8 @@ class Dec(Suite):
             why = compare_s_git(s[0], g)
             if why == "undef":
                 st["s_undefined"] += 1
-                if c.get("valid"):
-                    mism(c, "S is undefined (%s) on a file of a valid bucket" % unparse(s[0]))
+                if c["bucket"] in ("git-written", "git-skiphash", "synth-git", "synth-big"):
+                    mism(c, "S is undefined (%s) on a file git writes" % unparse(s[0]))
                 continue
             st["s_vs_git_read"] += 1
             if why:
@@ -987,7 +1014,7 @@ class Dec(Suite):
             if g is None:
                 continue
             # 2. fsck: checksum and order
-            if nf < 40 or c["bucket"] in ("synth-order", "synth-badsum", "git-skiphash"):
+            if nf < 25 or c["bucket"] in ("synth-order", "synth-badsum", "git-skiphash"):
                 nf += 1
                 want = "ok" if s[1] == "ok" else s_err(s[1])
                 got = gr.fsck(data, hs)
@@ -995,7 +1022,7 @@ class Dec(Suite):
                 if want not in UNDEF and got != want:
                     mism(c, "fsck: S %s / git %s" % (want, got))
             # 3. index.threads=2: extensions loaded from the EOIE offset
-            if c.get("threads") or (nt < 25 and b"EOIE" in data):
+            if c.get("threads") or (nt < 12 and b"EOIE" in data):
                 nt += 1
                 gt = gr.read(data, hs, threads=2)
                 why = compare_s_git(s[2], gt)
